@@ -104,6 +104,10 @@ def gen_source(rng, budget, opts, direction):
         sc['error_at'] = rng.randint(0, count)
     if direction == 'c':
         sc['start_idx'] = 1
+    if src in ('gen', 'agen') and rng.random() < opts.get('long_streams', 0.0):
+        # many small elements from a paced source: internal buffers of the library's publishers fill up
+        sc.update(count=rng.randint(130, 400), lens=[[rng.randint(1, 12), None]], pacing=_pick(rng, [(2, 0.0005), (1, 0.002)]))
+        sc.pop('error_at', None)
     if src in ('gen', 'agen') and rng.random() < opts.get('on_cancel_raises', 0.0):
         sc['on_cancel_raises'] = True
     if rng.random() < opts.get('lib_streams', 0.0):
@@ -568,4 +572,30 @@ def gen_core_close(seed, opts=None):
     plan['horizon'] = 3.0
     plan['settle'] = 2.0
     plan['nontrivial'] = True
+    return plan
+
+
+def gen_frag_huge(seed, opts=None):
+    """C03: logical frames larger than anything a single wire frame could carry (the 24-bit length field): more than
+    16 MiB of data, or data + metadata together above it, in fragments of ~1 MB; reassembly must not care."""
+    rng = random.Random(seed ^ 0x4B16)
+    F = _pick(rng, [(2, 1_000_000), (1, 4_000_000), (1, 65_536 * 4)])
+    big = 0xFFFFFF
+    shape = _pick(rng, [(2, [big + rng.randint(1, 4096), None]), (1, [big - rng.randint(0, 8), None]),
+                        (2, [9_000_000 + rng.randint(0, 99), 8_000_000 + rng.randint(0, 99)])])
+    kind = _pick(rng, [(2, 'rr'), (1, 'fnf'), (1, 'stream')])
+    by = _pick(rng, [(2, 'client'), (1, 'server')])
+    ia = {'id': 0, 'kind': kind, 'by': by, 'at': 0.0, 'req': {'dlen': 24, 'mlen': None}}
+    if kind == 'stream':
+        ia['resp'] = {'src': 'gen', 'count': 1, 'lens': [shape], 'end': _pick(rng, [(1, 'flag'), (1, 'separate')])}
+        ia['sub'] = {'initial_n': MAXN, 'refill': [MAXN]}
+    else:
+        ia['req'] = {'dlen': shape[0], 'mlen': shape[1]}
+        if kind == 'rr':
+            ia['resp'] = {'mode': 'now', 'dlen': 16, 'mlen': None}
+    plan = {'profile': 'frag-huge', 'seed': seed, 'framing': _pick(rng, [(2, 'tcp'), (1, 'ws')]), 'loop': {'eps': 0.0},
+            'client': {'fragment': F, 'read_buf': 6 * 1024 * 1024, 'keepalive_ms': 1_000_000},
+            'server': {'fragment': F, 'read_buf': 6 * 1024 * 1024},
+            'link': {'c2s': {'latency': 0.001, 'seed': 1, 'chunk': 'all'}, 's2c': {'latency': 0.001, 'seed': 2, 'chunk': 'all'}},
+            'interactions': [ia], 'faults': [], 'horizon': 60.0, 'settle': 1.0, 'nontrivial': True}
     return plan
